@@ -43,11 +43,13 @@ inductive NowStep (c : Cfg) (s r : Nat) (σ σ' : St) : Prop where
       (ho : o = c.beh s r (attemptNo σ s r))
       (hdone : nj = none ↔ o = .done)
       (hty : ∀ j', nj = some j' → j'.type = j.type)
+      (hret : ∀ j', nj = some j' → j.retries ≤ j'.retries ∨ c.maxRetries + 1 ≤ j'.retries)
       (e : σ' = setJob (log σ (.call s r j.type j.retries o)) s r nj)
   | callFin (j : Job) (nj : Option Job)
       (h : σ.shelf s r = some j)
       (hty : ∀ j', nj = some j' → j'.type = j.type)
       (hfix : c.writeBackSkipsGone = true → nj = none)
+      (hret : ∀ j', nj = some j' → j.retries ≤ j'.retries)
       (e : σ' = setJob (log (log σ (.call s r j.type j.retries .notDoneFin)) (.fin s r)) s r nj)
 
 theorem setJob_self (σ : St) (s r : Nat) (j : Job) (h : σ.shelf s r = some j) : setJob σ s r (some j) = σ := by
@@ -63,17 +65,17 @@ theorem notifyNow_step (c : Cfg) (σ : St) (s r : Nat) : NowStep c s r σ (notif
     simp only
     generalize ho : c.beh s r (attemptNo σ s r) = o
     cases o
-    · exact .call j .done none h ho.symm (by simp) (by simp) rfl
-    · exact .call j .doneFinishFail (some j) h ho.symm (by simp) (by simp) (setJob_self _ s r j (by simpa [log] using h)).symm
-    · exact .call j .notDone _ h ho.symm (by simp) (by simp) rfl
-    · exact .callFin j _ h (by intro j' hj'; split at hj' <;> simp at hj'; subst hj'; rfl) (by intro hf; simp [hf]) rfl
-    · exact .call j .fail _ h ho.symm (by simp) (by simp) rfl
-    · exact .call j .failCtx _ h ho.symm (by simp) (by simp) rfl
-    · exact .call j .fatal _ h ho.symm (by simp) (by simp) rfl
-    · exact .call j .crash (some j) h ho.symm (by simp) (by simp) (setJob_self _ s r j (by simpa [log] using h)).symm
-    · exact .call j .readFault (some j) h ho.symm (by simp) (by simp) (setJob_self _ s r j (by simpa [log] using h)).symm
-    · exact .call j .notDoneWriteFail (some j) h ho.symm (by simp) (by simp) (setJob_self _ s r j (by simpa [log] using h)).symm
-    · exact .call j .failWriteFail (some j) h ho.symm (by simp) (by simp) (setJob_self _ s r j (by simpa [log] using h)).symm
+    · exact .call j .done none h ho.symm (by simp) (by simp) (by intro j' hj'; cases hj' <;> first | exact .inl (Nat.le_refl _) | exact .inl (Nat.le_succ _) | exact .inr (Nat.le_refl _)) rfl
+    · exact .call j .doneFinishFail (some j) h ho.symm (by simp) (by simp) (by intro j' hj'; cases hj' <;> first | exact .inl (Nat.le_refl _) | exact .inl (Nat.le_succ _) | exact .inr (Nat.le_refl _)) (setJob_self _ s r j (by simpa [log] using h)).symm
+    · exact .call j .notDone _ h ho.symm (by simp) (by simp) (by intro j' hj'; cases hj' <;> first | exact .inl (Nat.le_refl _) | exact .inl (Nat.le_succ _) | exact .inr (Nat.le_refl _)) rfl
+    · exact .callFin j _ h (by intro j' hj'; split at hj' <;> simp at hj'; subst hj'; rfl) (by intro hf; simp [hf]) (by intro j' hj'; split at hj' <;> simp at hj'; subst hj'; exact Nat.le_succ _) rfl
+    · exact .call j .fail _ h ho.symm (by simp) (by simp) (by intro j' hj'; cases hj' <;> first | exact .inl (Nat.le_refl _) | exact .inl (Nat.le_succ _) | exact .inr (Nat.le_refl _)) rfl
+    · exact .call j .failCtx _ h ho.symm (by simp) (by simp) (by intro j' hj'; cases hj' <;> first | exact .inl (Nat.le_refl _) | exact .inl (Nat.le_succ _) | exact .inr (Nat.le_refl _)) rfl
+    · exact .call j .fatal _ h ho.symm (by simp) (by simp) (by intro j' hj'; cases hj' <;> first | exact .inl (Nat.le_refl _) | exact .inl (Nat.le_succ _) | exact .inr (Nat.le_refl _)) rfl
+    · exact .call j .crash (some j) h ho.symm (by simp) (by simp) (by intro j' hj'; cases hj' <;> first | exact .inl (Nat.le_refl _) | exact .inl (Nat.le_succ _) | exact .inr (Nat.le_refl _)) (setJob_self _ s r j (by simpa [log] using h)).symm
+    · exact .call j .readFault (some j) h ho.symm (by simp) (by simp) (by intro j' hj'; cases hj' <;> first | exact .inl (Nat.le_refl _) | exact .inl (Nat.le_succ _) | exact .inr (Nat.le_refl _)) (setJob_self _ s r j (by simpa [log] using h)).symm
+    · exact .call j .notDoneWriteFail (some j) h ho.symm (by simp) (by simp) (by intro j' hj'; cases hj' <;> first | exact .inl (Nat.le_refl _) | exact .inl (Nat.le_succ _) | exact .inr (Nat.le_refl _)) (setJob_self _ s r j (by simpa [log] using h)).symm
+    · exact .call j .failWriteFail (some j) h ho.symm (by simp) (by simp) (by intro j' hj'; cases hj' <;> first | exact .inl (Nat.le_refl _) | exact .inl (Nat.le_succ _) | exact .inr (Nat.le_refl _)) (setJob_self _ s r j (by simpa [log] using h)).symm
 
 
 /-- durable effect of the ops that only deliver: a sequence of `notifyNow`s and volatile changes -/
@@ -276,7 +278,7 @@ theorem Inv.same {c : Cfg} {σ σ' : St} (h : Inv c σ) (e : SameDurable σ σ')
 theorem Inv.now {c : Cfg} {σ σ' : St} {s r : Nat} (h : Inv c σ) (st : NowStep c s r σ σ') : Inv c σ' := by
   cases st with
   | skip _ e => subst e; exact h
-  | call j o nj hj ho hdone hty e =>
+  | call j o nj hj ho hdone hty _ e =>
     subst e
     have hd := h.jobDag s r j hj
     have hs := h.jobSel s r j hj
@@ -332,7 +334,7 @@ theorem Inv.now {c : Cfg} {σ σ' : St} {s r : Nat} (h : Inv c σ) (st : NowStep
             exact ⟨j2, by simp, (hty j2 rfl).trans hjt⟩
         · left; exact ⟨j', by rw [if_neg heq]; exact hj', hjt⟩
       · right; simp [hc]
-  | callFin j nj hj hty hfix e =>
+  | callFin j nj hj hty hfix _ e =>
     subst e
     have hd := h.jobDag s r j hj
     have hs := h.jobSel s r j hj
@@ -660,7 +662,7 @@ theorem Inv2.now {c : Cfg} {σ σ' : St} {s r : Nat} (hwb : c.writeBackSkipsGone
     Inv2 c σ' := by
   cases st with
   | skip _ e => subst e; exact h
-  | call j o nj hj ho hdone hty e =>
+  | call j o nj hj ho hdone hty _ e =>
     subst e
     constructor
     · intro s' r' t htyp hc
@@ -702,7 +704,7 @@ theorem Inv2.now {c : Cfg} {σ σ' : St} {s r : Nat} (hwb : c.writeBackSkipsGone
           rw [isCallOf_call] at hic
           exact absurd ⟨hic.1.symm, hic.2.symm⟩ heq
 
-  | callFin j nj hj hty hfix e =>
+  | callFin j nj hj hty hfix _ e =>
     subst e
     have hnj : nj = none := hfix hwb
     subst hnj
@@ -981,8 +983,8 @@ theorem DStep.grows {c : Cfg} {σ σ' : St} (d : DStep c σ σ') : Grows σ σ' 
   | now s r st =>
     cases st with
     | skip _ e => subst e; exact Grows.refl _
-    | call j o nj _ _ _ _ e => subst e; exact ⟨[_], rfl⟩
-    | callFin j nj _ _ _ e => subst e; exact ⟨[_, _], rfl⟩
+    | call j o nj _ _ _ _ _ e => subst e; exact ⟨[_], rfl⟩
+    | callFin j nj _ _ _ _ e => subst e; exact ⟨[_, _], rfl⟩
   | trans _ _ ih1 ih2 => exact ih1.trans ih2
 
 theorem attemptNo_mono {σ σ' : St} (h : Grows σ σ') (s r : Nat) : attemptNo σ s r ≤ attemptNo σ' s r := by
